@@ -50,3 +50,51 @@ def Doc.getPath? : Doc → Path → Option Doc
   | d, s :: rest => match d.child? s with | none => none | some c => c.getPath? rest
 
 end SfVerif
+
+namespace SfVerif
+open SfVerif.Gen
+
+/-- first pair whose key is the string `q`: (index, value) -/
+def Doc.findProp (q : Bytes) : List (Doc × Doc) → Nat → Option (Nat × Doc)
+  | [], _ => none
+  | (k, v) :: rest, idx =>
+    match k with
+    | .str bs => if bs = q then some (idx, v) else Doc.findProp q rest (idx + 1)
+    | _ => Doc.findProp q rest (idx + 1)
+
+namespace DocSpec
+
+/-- `get_at_index` read off the decoded node `c` that handle `h` denotes -/
+def getAtIndex (c : Doc) (h : Handle) (i : Nat) : RVal :=
+  match c with
+  | .arr xs => (match xs[i]? with
+    | some x => x.box { root := h.root, path := h.path ++ [.elem i] }
+    | none => .err ErrorCode_IndexOutOfBounds)
+  | .map ps => (match ps[i]? with
+    | some (_, v) => v.box { root := h.root, path := h.path ++ [.val i] }
+    | none => .err ErrorCode_IndexOutOfBounds)
+  | _ => .err ErrorCode_NotIndexable
+
+def getKeyAtIndex (c : Doc) (h : Handle) (i : Nat) : RVal :=
+  match c with
+  | .map ps => (match ps[i]? with
+    | some (k, _) => k.box { root := h.root, path := h.path ++ [.key i] }
+    | none => .err ErrorCode_IndexOutOfBounds)
+  | _ => .err ErrorCode_NotAnObject
+
+def getObjProp (c : Doc) (h : Handle) (q : Bytes) : RVal :=
+  match c with
+  | .map ps => (match Doc.findProp q ps 0 with
+    | some (i, v) => v.box { root := h.root, path := h.path ++ [.val i] }
+    | none => .null)
+  | _ => .err ErrorCode_NotAnObject
+
+def getValLen (c : Doc) : Nat :=
+  match c with
+  | .str bs => bs.size
+  | .arr xs => xs.length
+  | .map ps => ps.length
+  | _ => 0
+
+end DocSpec
+end SfVerif
